@@ -30,6 +30,9 @@ inductive Outcome (S : Type) where
   /-- `read(want)` with fewer than `want` bytes left in the message (or `want ≤ 0`): blocks -/
   | wouldBlock (s : S) (want : Int) (avail : Nat)
   | outOfFuel
+  /-- `read(n)` returned `b""`: the peer closed the pipe (only `pipeLoopEof` produces it).
+  Server: `self.finished = True; return`; client: `ConnectionResetError` -/
+  | eof (s : S)
   deriving Repr
 
 /-- a short read: at least 1, at most `want` bytes -/
@@ -78,5 +81,283 @@ def reqMachine (w : List Bytes → Bool) : Machine Req :=
   { feed := Req.feed w, nrs := Req.nextReadSize, fin := Req.finished,
     stop := fun s => s.nextReadSize == 0,
     unused := Req.unused }
+
+
+/-! ## the peer closes the pipe inside a message
+
+`pipeLoopEof` is the same loop over a pipe whose writer has sent `avail` and then closed
+its end: a read with at least one byte pending returns `1 … min want pending` bytes (a pipe
+never blocks while bytes are pending), a read with nothing pending returns `b""`. -/
+def pipeLoopEof {S : Type} (M : Machine S) (sched : Nat → Nat) : Nat → Nat → S → Bytes → Outcome S
+  | 0, _, _, _ => .outOfFuel
+  | fuel + 1, i, s, avail =>
+    if M.stop s then .finished s avail
+    else
+      let want := M.nrs s
+      if want ≤ 0 then .wouldBlock s want avail.length
+      else if avail.isEmpty then .eof s
+      else
+        let k := min (readSize want (sched i)) avail.length
+        pipeLoopEof M sched fuel (i + 1) (M.feed s (avail.take k)) (avail.drop k)
+
+def pipeHintsEof {S : Type} (M : Machine S) (sched : Nat → Nat) : Nat → Nat → S → Bytes → List Int
+  | 0, _, _, _ => []
+  | fuel + 1, i, s, avail =>
+    if M.stop s then []
+    else
+      let want := M.nrs s
+      if want ≤ 0 ∨ avail.isEmpty then [want]
+      else
+        let k := min (readSize want (sched i)) avail.length
+        want :: pipeHintsEof M sched fuel (i + 1) (M.feed s (avail.take k)) (avail.drop k)
+
+/-! ## machine combinators -/
+
+/-- `SmartMedium.read_bytes`: `min(desired_count, _MAX_READ_SIZE)` (64 KiB) -/
+def capMachine {S : Type} (M : Machine S) (cap : Nat) : Machine S :=
+  { M with nrs := fun s => min (M.nrs s) (cap : Int) }
+
+/-- a decoder that gives up: once `ok s` is false, `next_read_size()` is 0 and the loop
+stops (`ProtocolThreeDecoder.decoding_failed`, or the message handler raising out of
+`_read_more` on the client) — wherever in the message that happens -/
+def guardMachine {S : Type} (M : Machine S) (ok : S → Bool) : Machine S :=
+  { feed := M.feed
+    nrs := fun s => if ok s then M.nrs s else 0
+    fin := fun s => M.fin s && ok s
+    stop := fun s => M.stop s || !ok s
+    unused := M.unused }
+
+/-- run `M1` to completion, then hand its unused bytes to the decoder `k` chooses
+(`_build_protocol`: `protocol.accept_bytes(unused_bytes)`) and continue with `M2` -/
+def seqMachine {S1 S2 : Type} (M1 : Machine S1) (M2 : Machine S2) (k : S1 → S2) :
+    Machine (S1 ⊕ S2) :=
+  { feed := fun s x => match s with
+      | .inl s1 =>
+        let s1' := M1.feed s1 x
+        if M1.fin s1' then .inr (M2.feed (k s1') (M1.unused s1')) else .inl s1'
+      | .inr s2 => .inr (M2.feed s2 x)
+    nrs := fun s => match s with | .inl s1 => M1.nrs s1 | .inr s2 => M2.nrs s2
+    fin := fun s => match s with | .inl _ => false | .inr s2 => M2.fin s2
+    stop := fun s => match s with | .inl _ => false | .inr s2 => M2.stop s2
+    unused := fun s => match s with | .inl _ => [] | .inr s2 => M2.unused s2 }
+
+/-- one of two decoders, chosen when the state is created -/
+def altMachine {S1 S2 : Type} (M1 : Machine S1) (M2 : Machine S2) : Machine (S1 ⊕ S2) :=
+  { feed := fun s x => match s with | .inl a => .inl (M1.feed a x) | .inr b => .inr (M2.feed b x)
+    nrs := fun s => match s with | .inl a => M1.nrs a | .inr b => M2.nrs b
+    fin := fun s => match s with | .inl a => M1.fin a | .inr b => M2.fin b
+    stop := fun s => match s with | .inl a => M1.stop a | .inr b => M2.stop b
+    unused := fun s => match s with | .inl a => M1.unused a | .inr b => M2.unused b }
+
+/-- nothing to read (a response without body): the state is the unused bytes -/
+def nilMachine : Machine Bytes :=
+  { feed := fun u x => u ++ x, nrs := fun _ => 0, fin := fun _ => true, stop := fun _ => true,
+    unused := fun u => u }
+
+/-! ## `_get_line` (medium.py): `read_bytes(1)` until the buffer contains a newline -/
+
+inductive Line where
+  | reading (buf : Bytes)
+  /-- `line` is the text before the newline, `unused` = `excess` (pushed back) -/
+  | done (line unused : Bytes)
+  deriving DecidableEq, Repr
+
+def Line.feed : Line → Bytes → Line
+  | .reading buf, x =>
+    match splitLine (buf ++ x) with
+    | none => .reading (buf ++ x)
+    | some (l, r) => .done l r
+  | .done l u, x => .done l (u ++ x)
+
+def Line.finished : Line → Bool
+  | .done .. => true
+  | _ => false
+
+def Line.unused : Line → Bytes
+  | .done _ u => u
+  | _ => []
+
+def lineMachine : Machine Line :=
+  { feed := Line.feed, nrs := fun _ => 1, fin := Line.finished, stop := Line.finished,
+    unused := Line.unused }
+
+/-! ## ProtocolThreeDecoder with the checks it makes on headers and structures -/
+
+/-- `okH raw`: `bdecode_as_tuple(raw)` succeeds and gives a dict; `okS raw`: it succeeds -/
+def evOk (okH okS : Bytes → Bool) : Ev → Bool
+  | .headers h => okH h
+  | .struct r => okS r
+  | _ => true
+
+def v3Ok (okH okS : Bytes → Bool) (s : V3) : Bool := s.events.all (evOk okH okS)
+
+/-- the server's decoder: framing + `decoding_failed` on an undecodable header / structure.
+(Errors raised by the message handler do NOT stop the server's decoder: `accept_bytes`
+catches `SmartMessageHandlerError`, reports it and goes on parsing to the end.) -/
+def v3gMachine (okH okS : Bytes → Bool) : Machine V3 := guardMachine v3Machine (v3Ok okH okS)
+
+/-- the client's decoder + ConventionalResponseHandler: additionally a structure that is not
+a sequence or a part sequence the handler rejects (`Resp.run`) makes `protocol_error`
+re-raise out of `_read_more`, which ends the reading loop at that point -/
+def v3cOk (okH okS isSeq : Bytes → Bool) (fx : Bool) (s : V3) : Bool :=
+  v3Ok okH okS s && v3Ok (fun _ => true) isSeq s &&
+    (Resp.run fx {} s.events).toBool
+
+def v3cMachine (okH okS isSeq : Bytes → Bool) (fx : Bool) : Machine V3 :=
+  guardMachine v3Machine (v3cOk okH okS isSeq fx)
+
+/-! ## `_build_protocol` + `_serve_one_request_unguarded`: one whole request on the pipe -/
+
+/-- `_get_protocol_factory_for_bytes(line)` and the first `accept_bytes`:
+v3 marker → ProtocolThreeDecoder fed `b""`; v2 marker → protocol 2 fed what follows the
+marker on that line (nothing); anything else → protocol 1 fed the line itself -/
+def serveDispatch (w : List Bytes → Bool) : Line → V3 ⊕ Req
+  | .done l _ =>
+    if l ++ [10] = marker3 then .inl (V3.init false)
+    else if l ++ [10] = request2 then .inr (.line [])
+    else .inr (Req.feed w (.line []) (l ++ [10]))
+  | .reading _ => .inr (.line [])
+
+def serveMachine (w : List Bytes → Bool) (okH okS : Bytes → Bool) : Machine (Line ⊕ (V3 ⊕ Req)) :=
+  seqMachine lineMachine (altMachine (v3gMachine okH okS) (reqMachine w)) (serveDispatch w)
+
+def serveInit : Line ⊕ (V3 ⊕ Req) := .inl (.reading [])
+
+/-! ## client side, protocol 1 / 2: `read_response_tuple` then the body reader
+
+v1: tuple line, then the body decoder; v2: `bzr response 2\n`, status line, tuple line,
+then the body decoder.  Every line is read by `_get_line`. -/
+
+def const {A B : Type} (b : B) : A → B := fun _ => b
+
+def client1Machine {S : Type} (M : Machine S) (init : S) : Machine (Line ⊕ S) :=
+  seqMachine lineMachine M (const init)
+
+def client2Machine {S : Type} (M : Machine S) (init : S) : Machine (Line ⊕ (Line ⊕ (Line ⊕ S))) :=
+  seqMachine lineMachine
+    (seqMachine lineMachine (seqMachine lineMachine M (const init)) (const (.inl (.reading []))))
+    (const (.inl (.reading [])))
+
+/-- which body reader the caller uses after `read_response_tuple`:
+nothing (`expect_body=False` / failed status), `read_body_bytes`, `read_streamed_body` -/
+inductive BodyKind where
+  | none | bulk | stream
+  deriving DecidableEq, Repr
+
+def bodyMachine : Machine (LP ⊕ (CK ⊕ Bytes)) :=
+  altMachine lpMachine (altMachine ckMachine nilMachine)
+
+def bodyInit : BodyKind → LP ⊕ (CK ⊕ Bytes)
+  | .bulk => .inl LP.init
+  | .stream => .inr (.inl CK.init)
+  | .none => .inr (.inr [])
+
+def client1 (bk : BodyKind) : Machine (Line ⊕ (LP ⊕ (CK ⊕ Bytes))) :=
+  client1Machine bodyMachine (bodyInit bk)
+
+def client2 (bk : BodyKind) : Machine (Line ⊕ (Line ⊕ (Line ⊕ (LP ⊕ (CK ⊕ Bytes))))) :=
+  client2Machine bodyMachine (bodyInit bk)
+
+def client1Init : Line ⊕ (LP ⊕ (CK ⊕ Bytes)) := .inl (.reading [])
+def client2Init : Line ⊕ (Line ⊕ (Line ⊕ (LP ⊕ (CK ⊕ Bytes)))) := .inl (.reading [])
+
+/-! ## bencode as fastbencode's `bdecode_as_tuple` accepts it (validity and top-level kind only;
+used by the driver to instantiate `okH`/`okS`/`isSeq`, the theorems are parametric in them) -/
+
+inductive BCtx where
+  | list
+  | dkey (last : Option Bytes)
+  | dval (key : Bytes)
+  deriving DecidableEq, Repr
+
+def bytesLt : Bytes → Bytes → Bool
+  | _, [] => false
+  | [], _ :: _ => true
+  | a :: as, b :: bs => if a < b then true else if b < a then false else bytesLt as bs
+
+/-- split at the first occurrence of `c` -/
+def splitAtByte (c : UInt8) : Bytes → Option (Bytes × Bytes)
+  | [] => none
+  | x :: xs =>
+    if x = c then some ([], xs)
+    else match splitAtByte c xs with
+      | none => none
+      | some (l, r) => some (x :: l, r)
+
+def isDigits (b : Bytes) : Bool := !b.isEmpty && b.all (fun c => 48 ≤ c.toNat && c.toNat ≤ 57)
+
+/-- digits without a leading zero (except `0` itself) -/
+def canonDigits (b : Bytes) : Bool := isDigits b && (b.length = 1 || b.head? != some 48)
+
+/-- the text between `i` and `e` -/
+def intOk : Bytes → Bool
+  | 45 :: ds => canonDigits ds && ds != [48]
+  | ds => canonDigits ds
+
+/-- a value (`isStr`, payload if it is a string) has been completed below the stack `st` -/
+def bAfter (isStr : Bool) (payload : Bytes) : List BCtx → Option (List BCtx)
+  | [] => some []
+  | .list :: st => some (.list :: st)
+  | .dkey last :: st =>
+    if isStr && (match last with | none => true | some k => bytesLt k payload)
+    then some (.dval payload :: st) else none
+  | .dval key :: st => some (.dkey (some key) :: st)
+
+/-- scan values until the outermost one is complete; `some rest` = what follows it -/
+def bScan : Nat → Bytes → List BCtx → Option Bytes
+  | 0, _, _ => none
+  | fuel + 1, b, st =>
+    let finish (isStr : Bool) (payload rest : Bytes) : Option Bytes :=
+      match st with
+      | [] => some rest
+      | _ => match bAfter isStr payload st with
+        | none => none
+        | some st' => bScan fuel rest st'
+    match b with
+    | [] => none
+    | 108 :: r => bScan fuel r (.list :: st)
+    | 100 :: r => bScan fuel r (.dkey none :: st)
+    | 101 :: r =>
+      match st with
+      | .list :: st' | .dkey _ :: st' =>
+        (match st' with
+         | [] => some r
+         | _ => match bAfter false [] st' with
+           | none => none
+           | some st'' => bScan fuel r st'')
+      | _ => none
+    | 105 :: r =>
+      match splitAtByte 101 r with
+      | none => none
+      | some (ds, rest) => if intOk ds then finish false [] rest else none
+    | c :: _ =>
+      if 48 ≤ c.toNat ∧ c.toNat ≤ 57 then
+        match splitAtByte 58 b with
+        | none => none
+        | some (ds, rest) =>
+          if canonDigits ds then
+            match parseNat 10 ds with
+            | none => none
+            | some n => if rest.length < n then none else finish true (rest.take n) (rest.drop n)
+          else none
+      else none
+
+inductive BKind where
+  | int | str | list | dict
+  deriving DecidableEq, Repr
+
+/-- `some kind` iff `bdecode_as_tuple(b)` succeeds -/
+def bencKind (b : Bytes) : Option BKind :=
+  if bScan (b.length + 1) b [] = some [] then
+    match b with
+    | 100 :: _ => some .dict
+    | 108 :: _ => some .list
+    | 105 :: _ => some .int
+    | _ => some .str
+  else none
+
+def bencIsDict (b : Bytes) : Bool := bencKind b == some .dict
+def bencValid (b : Bytes) : Bool := (bencKind b).isSome
+def bencIsList (b : Bytes) : Bool := bencKind b == some .list
 
 end BreezyVerif.C30
